@@ -349,6 +349,7 @@ class Gen:
                 if i // 32 == b:
                     del fields[i]
             fields[b * 32] = r.getrandbits(32)
+        fields[2] = tyval   # OBJECT_FIELD_TYPE selects the object kind: it keeps a declared value (random fills above may have hit index 2)
         # block count: at least as many blocks as the highest field needs; servers size the mask
         # by object type, so trailing (and interior) all-zero blocks are ordinary encodings
         n = max(fields) // 32 + 1
